@@ -1125,4 +1125,69 @@ theorem sumL_map_zero {α : Type} (l : List α) : sumL (l.map fun _ => (0 : Rat)
   | cons a l ih => simp only [List.map_cons, sumL, ih]; ring
 
 
+theorem insertCell_perm (c : Cell) : ∀ l : List Cell, (insertCell c l).Perm (c :: l)
+  | [] => List.Perm.refl _
+  | a :: l => by
+    unfold insertCell
+    split
+    · exact List.Perm.refl _
+    · exact ((insertCell_perm c l).cons a).trans (List.Perm.swap c a l)
+
+theorem sortCells_perm : ∀ l : List Cell, (sortCells l).Perm l
+  | [] => List.Perm.refl _
+  | c :: l => (insertCell_perm c (sortCells l)).trans ((sortCells_perm l).cons c)
+
+theorem lastOr_map_hi : ∀ (t : List Cell) (c : Cell) (a : Rat), lastOr a ((c :: t).map (·.2)) = lastHi c t
+  | [], c, a => rfl
+  | b :: t, c, a => by
+    simp only [List.map_cons, lastOr, lastHi]
+    exact lastOr_map_hi t b c.2
+
+theorem chainOK_sound : ∀ (t : List Cell) (c : Cell), chainOK (c :: t) = true →
+    (c :: t) = chainCells (c.1 :: (c :: t).map (·.2)) ∧ StrictSorted (c.1 :: (c :: t).map (·.2))
+  | [], c, h => by
+    simp only [chainOK, decide_eq_true_eq] at h
+    exact ⟨rfl, h, trivial⟩
+  | b :: t, c, h => by
+    simp only [chainOK, Bool.and_eq_true, decide_eq_true_eq] at h
+    obtain ⟨⟨h1, h2⟩, h3⟩ := h
+    obtain ⟨e, s⟩ := chainOK_sound t b h3
+    constructor
+    · have : chainCells (c.1 :: (c :: b :: t).map (·.2)) =
+          (c.1, c.2) :: chainCells (c.2 :: (b :: t).map (·.2)) := rfl
+      rw [this, h2, ← e, ← h2]
+    · refine ⟨h1, ?_⟩
+      simp only [List.map_cons] at s ⊢
+      rw [h2]; exact s
+
+theorem sumTo_mul_blocks (nd : Nat) (g : Nat → Rat) : ∀ c : Nat,
+    sumTo (c * nd) g = sumTo c (fun j => sumTo nd (fun b => g (j * nd + b)))
+  | 0 => by simp [sumTo]
+  | c + 1 => by
+    rw [Nat.succ_mul, sumTo_split, sumTo_mul_blocks nd g c]
+    simp only [sumTo]
+
+theorem kron_block (A : Mat) (nd i j : Nat) (hi : i < A.r * nd) (hj : j < A.c) :
+    sumTo nd (fun b => (A.kron nd).ent i (j * nd + b)) = A.ent (i / nd) j := by
+  have hnd : 0 < nd := by
+    rcases Nat.eq_zero_or_pos nd with h | h
+    · subst h; simp at hi
+    · exact h
+  have hlt : ∀ b, b < nd → j * nd + b < A.c * nd := by
+    intro b hb
+    calc j * nd + b < j * nd + nd := by omega
+      _ = (j + 1) * nd := by rw [Nat.succ_mul]
+      _ ≤ A.c * nd := Nat.mul_le_mul_right nd hj
+  rw [sumTo_congr nd _ (fun b => if i % nd = b then A.ent (i / nd) j else 0) (by
+    intro b hb
+    unfold Mat.kron
+    rw [ent_table _ _ _ i (j * nd + b) hi (hlt b hb)]
+    have e1 : (j * nd + b) % nd = b := by rw [Nat.mul_comm, Nat.mul_add_mod]; exact Nat.mod_eq_of_lt hb
+    have e2 : (j * nd + b) / nd = j := by
+      rw [Nat.mul_comm, Nat.mul_add_div hnd, Nat.div_eq_of_lt hb]; rfl
+    rw [e1, e2])]
+  rw [sumTo_single nd (i % nd) (Nat.mod_lt i hnd) _ (fun b _ hne => if_neg (fun h => hne h.symm))]
+  simp
+
+
 end PorepyVerif.C26
